@@ -297,7 +297,7 @@ func cat(bs ...[]byte) []byte {
 func TestC02(t *testing.T) {
 	m := mon.New(t, "C02")
 	defer m.Done()
-	m.Rule("fault enumeration: for each kind (chacha, xchacha) and payload length in {0,1,8,15,16,17,32,33,63..65,127..129,192,193,255..257,320,321,511..513,1024,4096} a message sealed by the executable spec is modified by the harness in exactly one way and presented to Open on every path (asm, generic; purego build): every single bit of ct‖tag (quick tier: every bit up to 1 KiB sealed size, 2000 positions incl. both ends above), every bit of nonce, key and ad, truncation/extension by 1..32 at either end (zero and random bytes), bytes removed/inserted in front of the tag, ad shortened/zero-extended, long additional data (255, 256, 257, 272, 511..513, 1000, 4096, 65552 bytes: one bit in every byte position up to 1000 bytes and stride-sampled above, all bits at both ends and at positions 0/15/16 mod 16 and mod 256, truncation/extension by 1..32, AD cut to its first len mod 256 / mod 65536 bytes), every prefix shorter than a tag, swapped ad/ct, random multi-byte edits; additionally messages whose true final Poly1305 accumulator is constructed at the edges of the final reduction / tag addition (h in 0..4, p-1, p-5, carry into 2^128, limb boundaries) with every tag bit and the arithmetic neighbours of the tag (+-1, +-5, +-2^64, +-(2^64+-5), +-2^32, +-2^96); the same for secretbox.Open and box.Open/OpenAfterPrecomputation/OpenAnonymous (Curve25519's ignored key bits excluded). Oracle: by construction every presented tuple differs from the sealed one => must be rejected; leak clause: dst window pre-filled with the complement of the would-be plaintext (ref key stream), a run of >= 8 would-be plaintext bytes after a failed Open is a violation. distinct = (path, kind, tamper class, asm length branch, dst mode)")
+	m.Rule("fault enumeration: for each kind (chacha, xchacha) and payload length in {0,1,8,15,16,17,32,33,63..65,127..129,192,193,255..257,320,321,511..513,1024,4096} a message sealed by the executable spec is modified by the harness in exactly one way and presented to Open on every path (asm, generic; purego build): every single bit of ct‖tag (quick tier: every bit up to 1 KiB sealed size, 2000 positions incl. both ends above), every bit of nonce, key and ad, truncation/extension by 1..32 at either end (zero and random bytes), bytes removed/inserted in front of the tag, ad shortened/zero-extended, long additional data (255, 256, 257, 272, 511..513, 1000, 4096, 65552 bytes: one bit in every byte position up to 1000 bytes and stride-sampled above, all bits at both ends and at positions 0/15/16 mod 16 and mod 256, truncation/extension by 1..32, AD cut to its first len mod 256 / mod 65536 bytes), every prefix shorter than a tag, swapped ad/ct, random multi-byte edits; additionally messages whose true final Poly1305 accumulator is constructed at the edges of the final reduction / tag addition (h in 0..4, p-1, p-5, carry into 2^128, limb boundaries) with every tag bit and the arithmetic neighbours of the tag (+-1, +-5, +-2^64, +-(2^64+-5), +-2^32, +-2^96); the same for secretbox.Open and box.Open/OpenAfterPrecomputation/OpenAnonymous (Curve25519's ignored key bits excluded). A last stream shares ONE AEAD value between 8 goroutines that Open one spec-sealed message per round, valid or with one bit flipped in nonce/ad/ct/tag (fixed counts), so tampered and valid Opens of the same message overlap. Oracle: by construction every presented tuple differs from the sealed one => must be rejected; leak clause: dst window pre-filled with the complement of the would-be plaintext (ref key stream), a run of >= 8 would-be plaintext bytes after a failed Open is a violation. distinct = (path, kind, tamper class, asm length branch, dst mode)")
 	m.Assume("the sealed messages come from h/ref/aead8439 (AEAD) and are confirmed authentic by an unmodified Open on each path before tampering; NaCl boxes are sealed by the package itself and cross-checked against libsodium " + sodiumaead.Version())
 	m.Assume("Curve25519 ignores bit 255 of a public key and clamps bits 0,1,2,254,255 of a private key: flips of those bits give an equivalent key and are not presented as modifications")
 
@@ -340,6 +340,7 @@ func TestC02(t *testing.T) {
 			c02ConstructedUnit(m, r, ps, v/len(c02ConLens), c02ConLens[v%len(c02ConLens)], conTargets[ti], ctA, adA, dstA)
 		}
 	})
+	c02Concurrent(m, ps)
 	for _, p := range []string{"asm", "generic", "purego"} {
 		m.Gate(p+"_len129_bits_flipped", 2*145*8, "every bit of every byte of the 129-byte message's ct‖tag flipped, both kinds, on the "+p+" path")
 		m.Gate(p+"_inputs_shorter_than_tag", 32, "inputs shorter than a tag on the "+p+" path")
